@@ -391,6 +391,72 @@ func besideCaller() {
 	vrt.Observe("S=%v callErr=%d", a1 != nil && a1.err == nil, callErr)
 }
 
+// twoSignals: one connection follows TWO signals of one object (tick and
+// other) and the level property; it stops following one of them: the other
+// subscriptions of the same connection keep receiving every event.
+func twoSignals() {
+	collected = nil
+	w := fx.Start(bus.Yes{})
+	c1 := w.MustConnect()
+	p := c1.Probe(1)
+	which := vrt.ChooseFree(3, "which subscription is cancelled")
+	vrt.Explore()
+	var ticks, others, levels []int32
+	cancelT, chT, errT := p.SubscribeTick()
+	cancelO, chO, errO := p.SubscribeOther()
+	cancelL, chL, errL := p.SubscribeLevel()
+	if errT != nil || errO != nil || errL != nil {
+		failf("subscribe-failed/two-signals", "subscribing to tick / other / level on one connection failed: %v %v %v", errT, errO, errL)
+		flush()
+		return
+	}
+	vrt.GoNamed("drain-tick", func() {
+		for v := range chT {
+			ticks = append(ticks, v)
+		}
+	})
+	vrt.GoNamed("drain-other", func() {
+		for v := range chO {
+			others = append(others, v)
+		}
+	})
+	vrt.GoNamed("drain-level", func() {
+		for v := range chL {
+			levels = append(levels, v)
+		}
+	})
+	emit := func(n int32) {
+		if err := w.Root.Helper.SignalTick(n); err != nil {
+			failf("emit-error", "tick(%d): %v", n, err)
+		}
+		if err := w.Root.Helper.SignalOther(n + 10); err != nil {
+			failf("emit-error", "other(%d): %v", n+10, err)
+		}
+		if err := w.Root.Helper.UpdateLevel(n + 20); err != nil {
+			failf("emit-error", "level(%d): %v", n+20, err)
+		}
+		vrt.Quiesce()
+	}
+	emit(1)
+	[]func(){cancelT, cancelO, cancelL}[which]()
+	vrt.Quiesce()
+	emit(2)
+	want := [][]int32{{1, 2}, {11, 12}, {21, 22}}
+	want[which] = want[which][:1]
+	names := []string{"tick", "other", "level"}
+	for i, got := range [][]int32{ticks, others, levels} {
+		if i != which && fmt.Sprint(got) != fmt.Sprint(want[i]) {
+			failf("disturbed-by-other-unsubscribe/"+names[i], "one connection followed tick, other and level of one object and stopped following %s: its %s subscription received %v, expected %v", names[which], names[i], got, want[i])
+		}
+		if i == which && len(got) > 1 {
+			failf("event-after-cancel/"+names[i], "the cancelled %s subscription received %v", names[i], got)
+		}
+	}
+	fx.Settle()
+	flush()
+	vrt.Observe("cancelled=%s tick=%v other=%v level=%v", names[which], ticks, others, levels)
+}
+
 // histories: sequential conformance (no concurrency, every step runs to
 // quiescence): two subscribers arrive, leave in either order, then a third one
 // arrives; each window must receive exactly the events emitted while it was
@@ -813,6 +879,8 @@ func cycles() {
 func init() {
 	reg.Register(&reg.Scenario{Property: "C13", Name: "subscriber-beside-caller", Body: besideCaller, Quick: 2, Thorough: 3,
 		Doc: "one goroutine subscribes while another goroutine of the same client makes two calls (answer handlers and event handler share the connection's handler table); three events afterwards: all received, channel open until cancel, calls answered"})
+	reg.Register(&reg.Scenario{Property: "C13", Name: "two-signals-and-a-property-one-connection", Body: twoSignals, Quick: 0, Thorough: 1,
+		Doc: "one connection follows two signals and the property of one object and stops following one of the three: the two others keep receiving every event"})
 	reg.Register(&reg.Scenario{Property: "C13", Name: "twelve-subscribers", Body: manySubscribers, Quick: 0, Thorough: 0,
 		Doc: "twelve subscribers on twelve connections, one of them (each in turn, or none) leaves, two events: every remaining subscriber receives both once"})
 	reg.Register(&reg.Scenario{Property: "C13", Name: "four-subscription-cycles", Body: cycles, Quick: 0, Thorough: 1,
